@@ -27,18 +27,18 @@ func TestMain(m *testing.M) {
 
 // ForgeOp is one structure-aware mutation of a valid stream.
 type ForgeOp struct {
-	Kind  string `json:"kind"`            // hdr, blklen, prelen, mode, skip, bytes, bits, trunc, append, setbytes, bwthdr
+	Kind string `json:"kind"` // hdr, blklen, prelen, mode, skip, bytes, bits, trunc, append, setbytes, bwthdr
 	// bwthdr (payload of the block = output of the BWT block codec, i.e. entropy NONE and BWT last in the chain): the BWT
 	// header is rebuilt with primary indexes of Width bytes (0 = keep), the stored index of chunk Off is set to Val, and the
 	// block length prefix / pre-entropy length are adjusted to the new payload size
-	Field string `json:"field,omitempty"` // hdr: version, ck, entropy, transforms, blocksize, szmask, size, checksum
-	Block int    `json:"block,omitempty"`
-	Off   int    `json:"off,omitempty"`   // bytes: offset inside the region; bits/trunc: per mille; setbytes: absolute byte offset
-	Width int    `json:"width,omitempty"` // bytes: 1..4 ; setbytes/append: length
-	Val   uint64 `json:"val"`
-	Region string `json:"region,omitempty"` // bytes: head, tail, any
-	Lw    int    `json:"lw,omitempty"`     // blklen: forged width (0 = keep)
-	KeepCk bool  `json:"keep_ck,omitempty"` // hdr: do NOT recompute the header checksum
+	Field  string `json:"field,omitempty"` // hdr: version, ck, entropy, transforms, blocksize, szmask, size, checksum
+	Block  int    `json:"block,omitempty"`
+	Off    int    `json:"off,omitempty"`   // bytes: offset inside the region; bits/trunc: per mille; setbytes: absolute byte offset
+	Width  int    `json:"width,omitempty"` // bytes: 1..4 ; setbytes/append: length
+	Val    uint64 `json:"val"`
+	Region string `json:"region,omitempty"`  // bytes: head, tail, any
+	Lw     int    `json:"lw,omitempty"`      // blklen: forged width (0 = keep)
+	KeepCk bool   `json:"keep_ck,omitempty"` // hdr: do NOT recompute the header checksum
 }
 
 // C03Case: a valid stream recipe + forging program, or raw bytes.
@@ -254,10 +254,10 @@ var c03Cache struct {
 }
 
 type c03Out struct {
-	msg        string
-	known      string
-	nontrivial bool
-	status     string
+	msg          string
+	known        string
+	nontrivial   bool
+	status       string
 	inconclusive string
 }
 
